@@ -159,9 +159,10 @@ theorem reader_final (b0 : Buf) (hv : b0.valid) (s : St) (h : RInv b0 s) :
 
 /-- **iobuf_inv, source side.** For a valid source buffer and every body (and every exit point of
 it) built from the modelled reader operations and `io_limit` blocks: afterwards `ri ≤ wi ≤ len`, the
-read index did not move backwards, no byte changed, `len` did not change and `wi` did not grow (it is
-lower than before only if the function was left from inside an `io_limit` block, which skips the
-restore). -/
+read index did not move backwards, no byte changed, `len` did not change and `wi` did not grow (it
+would be lower than before only if the function were left from inside an `io_limit` block, skipping
+the restore — which lang/check rejects since fixes/C08-check-io-block-escapes.patch; for the exit
+points of accepted programs, between blocks, `balanced_same` gives `wi` unchanged). -/
 theorem iobuf_inv_reader (b0 : Buf) (hv : b0.valid) (is : List Instr) :
     (callIO false b0 is).valid ∧ b0.ri ≤ (callIO false b0 is).ri ∧
     (callIO false b0 is).mem = b0.mem ∧ (callIO false b0 is).len = b0.len ∧
@@ -422,7 +423,7 @@ theorem forget_hides_history (s : St) :
 /-- `io_bind`: whatever the block does to the bound variable, the saved state comes back. -/
 theorem bind_restores (saved inner : St) : bindEnd saved inner = saved := rfl
 
-/-! ### non-vacuity and the quirks the model keeps -/
+/-! ### non-vacuity, and what the checker's rule on io blocks prevents -/
 
 /-- A source buffer of 5 bytes, `ri = 1`, `wi = 4`. -/
 def srcDemo : Buf :=
@@ -440,9 +441,11 @@ example : Balanced [.rd 1, .limitBegin 1, .rd 1, .rd 1, .limitEnd, .undo, .rd 1]
       (.simple _ _ (by intro l; simp) (by simp) (.simple _ _ (by intro l; simp) (by simp) .nil))
       (.simple _ _ (by intro l; simp) (by simp) (.simple _ _ (by intro l; simp) (by simp) .nil)))
 
-/-- Leaving the function inside an `io_limit` block (allowed by lang/check, see its TODO) skips the
-restore: the caller's source buffer keeps the shortened `wi` and the cleared `closed`. The contract
-of `iobuf_inv_reader` still holds. -/
+/-- Leaving the function inside an `io_limit` block would skip the restore: the caller's source
+buffer would keep the shortened `wi` and the cleared `closed` (the contract of `iobuf_inv_reader` still
+holds). lang/check accepted such programs until fixes/C08-check-io-block-escapes.patch (its TODO
+"prohibit jumps, rets … while inside an io_bind body"); it now rejects them, so no generated function
+has this prefix as an exit point. -/
 example : callIO false srcDemo [.rd 1, .limitBegin 1, .rd 1] =
     { srcDemo with ri := 3, wi := 3, closed := false } := by decide
 
